@@ -70,7 +70,12 @@ def pipeline(fn: ast.FunctionDef, var: str = "df") -> List[Op]:
         elif isinstance(root, ast.Call) and isinstance(root.func, ast.Attribute) and root.func.attr == "DataFrame":
             ops.append(Op("root", "DataFrame", node, root))
         elif isinstance(root, ast.Call) and isinstance(root.func, ast.Name):
-            # Constructor(df) at the end of a reader
+            # Constructor(df) at the end of a reader; Constructor(df.m(..).n(..)): the methods apply first
+            if len(root.args) == 1 and not calls:
+                r2, c2 = unchain(root.args[0])
+                if isinstance(r2, ast.Name) and r2.id == var:
+                    for c in c2:
+                        ops.append(Op("call", c.func.attr, c, c))
             ops.append(Op("construct", root.func.id, node, root))
             return True
         else:
